@@ -8,6 +8,7 @@ CONSTANTS
   OptSet <- OptsCore
   AbortCancels = TRUE
   GenChecksCtx = TRUE
+  GenEofByIs = FALSE
   ResolverSame = FALSE
   ExcludedConsulted = TRUE
   Mut = "none"
